@@ -371,6 +371,26 @@ func (c *Ctx) Gate(fn *ssa.Function, spec string, tgt Target, opt Opt) {
 			c.Fail(k1, fnName, "verdict of "+what+" obeyed before "+tgt.Name, site, "the result is never branched on nor returned (discarded verdict)")
 			continue
 		}
+		// sufficiency: a (bool, error) callee that can answer (false, nil) must have its boolean looked at
+		if len(r.Bool) > 0 && len(r.Err) > 0 {
+			boolUsed := false
+			for _, t := range tests {
+				if condUses(t.If.Cond, r, 'b', 0) {
+					boolUsed = true
+				}
+			}
+			for _, ret := range Returns(fn) {
+				for _, rv := range ret.Results {
+					if r.isRes(rv) == 'b' {
+						boolUsed = true
+					}
+				}
+			}
+			if !boolUsed && MayReturnFalseNil(ci.Common().StaticCallee(), 0) {
+				c.Fail(k1, fnName, "verdict of "+what+" obeyed before "+tgt.Name, site, "only the error is tested, the boolean is discarded, and the callee can answer (false, nil)")
+				continue
+			}
+		}
 		var bad []*ssa.BasicBlock
 		und := 0
 		for _, t := range tests {
@@ -378,10 +398,12 @@ func (c *Ctx) Gate(fn *ssa.Function, spec string, tgt Target, opt Opt) {
 				und++
 				continue
 			}
-			bad = append(bad, t.Bad.To())
+			if !back[t.Bad] {
+				bad = append(bad, t.Bad.To())
+			}
 			allGood[t.Good] = true
 		}
-		if und > 0 && len(bad) == 0 {
+		if und > 0 && len(bad) == 0 && len(tests) == und {
 			c.Und(k1, fnName, "verdict of "+what+" obeyed before "+tgt.Name, site, "branch polarity on the result could not be decided")
 			continue
 		}
@@ -426,6 +448,78 @@ func (c *Ctx) Gate(fn *ssa.Function, spec string, tgt Target, opt Opt) {
 	}
 }
 
+// condUses: the condition mentions a result of the given kind.
+func condUses(v ssa.Value, r *CallRes, kind byte, depth int) bool {
+	if depth > 8 {
+		return false
+	}
+	v = Resolve(v)
+	if r.isRes(v) == kind {
+		return true
+	}
+	switch x := v.(type) {
+	case *ssa.UnOp:
+		return condUses(x.X, r, kind, depth+1)
+	case *ssa.BinOp:
+		return condUses(x.X, r, kind, depth+1) || condUses(x.Y, r, kind, depth+1)
+	}
+	return false
+}
+
+// ToValue: the instruction computing a value whose canonical form matches glob.
+func ToValue(glob string) Target {
+	return Target{Name: "value `" + glob + "`", Instr: func(i ssa.Instruction) bool {
+		v, ok := i.(ssa.Value)
+		if !ok {
+			return false
+		}
+		switch i.(type) {
+		case *ssa.BinOp, *ssa.Call:
+			return Glob(glob, Canon(v))
+		}
+		return false
+	}}
+}
+
+func ToValueSameIter(glob string) Target {
+	t := ToValue(glob)
+	t.SameIter = true
+	return t
+}
+
+// ReturnIs (K5): the set of canonical forms of result idx over all returns of
+// fn equals the expected set.
+func (c *Ctx) ReturnIs(fn *ssa.Function, idx int, want []string, why string) {
+	if fn == nil {
+		return
+	}
+	fnName := load.QualName(fn)
+	got := map[string]ssa.Instruction{}
+	for _, ret := range Returns(fn) {
+		if idx < len(ret.Results) {
+			got[CanonD(ret.Results[idx], 9)] = ret
+		}
+	}
+	c.Sites += len(got)
+	for _, w := range want {
+		found := false
+		for g, ins := range got {
+			if MatchCond(w, g) {
+				found = true
+				c.OK("K5", fnName, "returns `"+w+"`", c.At(ins), why)
+				delete(got, g)
+				break
+			}
+		}
+		if !found {
+			c.Fail("K5", fnName, "returns `"+w+"`", "-", "no return computes this value ("+why+")")
+		}
+	}
+	for g, ins := range got {
+		c.Fail("K5", fnName, "returns only the listed values", c.At(ins), "unexpected return value `"+short(g, 200)+"` ("+why+")")
+	}
+}
+
 func uniq(s []string) []string {
 	sort.Strings(s)
 	out := s[:0]
@@ -465,6 +559,9 @@ func (c *Ctx) Guard(fn *ssa.Function, cond Cond, tgt Target, opt Opt) bool {
 	ok := true
 	for _, e := range edges {
 		reached := ReachFrom([]*ssa.BasicBlock{e.To()}, cut)
+		if tgt.SameIter && BackEdges(fn)[e] {
+			reached = map[*ssa.BasicBlock]bool{} // the rejecting edge is itself the jump to the next iteration
+		}
 		// the successor may have other predecessors (shared error block): fine,
 		// we only ask where this edge can lead.
 		var hit []string
